@@ -232,7 +232,7 @@ Definition run_msgs (t : tm) : tm :=
       | Some hc =>
           tmres (fun p => let o := fst p in
                           TL [tbool (o_system _ o); TB (o_saddr _ o); TB (o_spath _ o); TB (o_raddr _ o); TB (o_rpath _ o);
-                              t_msg (o_msg _ o); consumed bs (snd p)])
+                              t_msg (o_msg _ o)])
                 (drun (dec_envelope uval hc t_cdec t_qerr) bs)
       | _ => tm_err 1
       end
